@@ -43,9 +43,14 @@ TView ==
   /\ last' = [last EXCEPT ![Ev.node][Ev.shard] = U(Ev)]
   /\ UNCHANGED delivered
 
+\* a membership event of the gossip layer (a member joined, left or changed): it brings no Raft information of its own
+\* (the node re-reads its LOCAL Raft information, which is empty in this driver), so the view stays the join of what was
+\* delivered - a member that leaves does not take knowledge about terms with it
+TMember == IsEvent("member") /\ UNCHANGED <<delivered, last>>
+
 TReset == IsEvent("reset") /\ delivered' = [n \in Nodes |-> [s \in Shards |-> {}]] /\ last' = [n \in Nodes |-> [s \in Shards |-> Empty]]
 
-TNext == TUpdate \/ TGossip \/ TView \/ TReset
+TNext == TUpdate \/ TGossip \/ TView \/ TMember \/ TReset
 TSpec == TInit /\ [][TNext]_vars
 
 TraceAccepted ==
